@@ -88,7 +88,7 @@ def st_bus(tier):
                 how = draw(st.sampled_from(["named", "fixed", "alloc", "anon"]))
                 ops.append(["slave", None if how == "anon" else name, how, draw(origin(aw)), draw(sizes), draw(st.booleans())])
             elif k == 8:
-                ops.append(["master", draw(st.one_of(st.none(), st.sampled_from(["cpu", "dma", "m0"])))])
+                ops.append(["master", draw(st.one_of(st.none(), st.none(), st.sampled_from(["cpu", "dma", "m0", "master0", "master1", "master2", "master3"])))])
             else:
                 ops.append(["finalize", draw(st.lists(st.integers(0, (1 << 34) - 1), max_size=4))])
         if draw(st.booleans()):
@@ -154,9 +154,11 @@ def _apply_bus(bus, op, log):
         return r
     if kind == "master":
         name = op[1]
-        dup = name is not None and name in bus.masters
+        eff = name if name is not None else "master%d" % len(bus.masters)     # the name an unnamed master is given
+        dup = eff in bus.masters
+        nb = len(bus.masters)
         bus.add_master(name=name, master=_iface(bus))
-        return {"dup_master": dup}
+        return {"dup_master": dup or len(bus.masters) != nb + 1}
     raise AssertionError(kind)
 
 
@@ -361,6 +363,10 @@ def st_locs(tier):
                 ops.append(["add", name, n, draw(st.booleans())])
             else:
                 ops.append(["map", name])
+        # locations reserved when the handler is created (csr_map / reserved_csrs): they go through the same checks as requests
+        if kind == "csr" and draw(st.integers(0, 2)) == 0:
+            cfg["reserved"] = [[draw(st.sampled_from(LNAMES)), draw(st.one_of(st.integers(0, 6), st.sampled_from([-1, n_locs - 1, n_locs, n_locs + 1])))]
+                               for _ in range(draw(st.integers(1, 4)))]
         return {"kind": kind, "cfg": cfg, "ops": ops}
     return hist()
 
@@ -371,6 +377,10 @@ def _new_loc(case):
         h = SoCIRQHandler(n_irqs=case["cfg"]["n"])
         h.enable()
         return h
+    res = case["cfg"].get("reserved")
+    if res:
+        # a dict, as the SoC passes it: a name listed twice keeps its last number
+        return SoCCSRHandler(data_width=32, address_width=case["cfg"]["aw"], paging=case["cfg"]["paging"], reserved_csrs={k: v for k, v in res})
     return SoCCSRHandler(data_width=32, address_width=case["cfg"]["aw"], paging=case["cfg"]["paging"])
 
 
@@ -393,7 +403,16 @@ def _apply_loc(h, op):
 
 def run_locs(case):
     _rejections()
-    h = _new_loc(case)
+    try:
+        h = _new_loc(case)
+    except _rejections():
+        env.restore_stderr()
+        return ok(nt=True, cls=["reserved-map-rejected"])
+    if case["cfg"].get("reserved"):
+        vals = list(h.locs.values())
+        if len(set(vals)) != len(vals) or any(not isinstance(n, int) or not (0 <= n < h.n_locs) for n in vals):
+            return bad("loc-reserved", "handler created with reserved locations %r holds %r (legal range 0..%d, each number once)" %
+                       (case["cfg"]["reserved"], h.locs, h.n_locs - 1), key="loc-reserved")
     good = []
     rejections = 0
     after = 0
